@@ -11,8 +11,9 @@ RULE = ("four streams. hist: histories of 5-30 requests over ONE engine; one his
         "reference is compared on the fixed federations only), the others on three fixed federations (accounts/reviews/"
         "products with argument-carrying fields, an interface and an Upload scalar; the multi-fetch test federation plus a "
         "third subgraph; the schedule-fetches test federation plus a subgraph whose field @requires one field of each of the "
-        "others) with generated universes and generated operations (nested entity hops, lists, aliases, arguments with "
-        "defaults / input objects / enums, @skip/@include); a history mixes exact repeats, the same operation in other "
+        "others; 'hop': a key translation id -> upc with two equally good intermediate subgraphs) with generated universes and generated operations (nested entity hops, lists, aliases, arguments with "
+        "defaults / input objects / enums, @skip/@include on fields and inline fragments); a history mixes exact repeats, the "
+        "SAME text with @skip/@include condition variables flipped, one two-operation document sent under either operation name, the same operation in other "
         "spellings (literals, variables, renamed variables, variables named from the mapper's alphabet, variables inside "
         "list/object literals, named/inline fragments), the same shape with other argument values and other operations; "
         "every history runs under the default option set and a sample (quick) or all (thorough) of the 16 combinations of "
